@@ -1,6 +1,6 @@
 SPECIFICATION TraceSpec
 CONSTANTS
-  Defects = {"D1", "D2", "D3"}
+  Defects = {"D1", "D2", "D3", "D4"}
 CONSTRAINT ScanConstraint
 POSTCONDITION ScanAccepted
 CHECK_DEADLOCK FALSE
